@@ -375,9 +375,13 @@ def unstrip(res, strip):
 LOCAL_FLAVOURS = ("d1", "d2", "l1", "l2")
 
 
-def passes(measure, arg):
+def passes(measure, arg, clause=None):
+    """does the re-run get past the clause that failed originally?  (a different, later clause may still fail:
+    the question is only whether the original failure is explained)"""
     try:
         measure(arg)
+    except Violation as v:
+        return clause is not None and v.reason != clause
     except Exception:  # noqa: BLE001
         return False
     return True
@@ -399,12 +403,12 @@ def with_diagnosis(measure, o, flavour, net, sizes):
     except Exception as exc:  # noqa: BLE001 - re-raised below unless classified
         clause = exc.reason if isinstance(exc, Violation) else "crash:" + type(exc).__name__
         if o["local"] and flavour in LOCAL_FLAVOURS and (o["damping"] > 0 or o["diis"]):
-            if passes(measure, dict(o, local=False)):
-                if o["diis"] and (o["damping"] == 0 or passes(measure, dict(o, diis=False))):
+            if passes(measure, dict(o, local=False), clause):
+                if o["diis"] and (o["damping"] == 0 or passes(measure, dict(o, diis=False), clause)):
                     raise Violation("diis-local-stuck", flavour=flavour, clause=clause) from None
                 raise Violation("damped-local-stuck", flavour=flavour, clause=clause) from None
         if o["damping"] == 0.5 and net["kind"] == "signed" and flavour in ("d1", "hd1", "hv1", "l1"):
-            if passes(measure, dict(o, damping=0.45)):
+            if passes(measure, dict(o, damping=0.45), clause):
                 raise Violation("damped-half-cancel", flavour=flavour, clause=clause) from None
         raise
 
@@ -788,13 +792,13 @@ def run_schedule(case):
         clause = exc.reason if isinstance(exc, Violation) else "crash:" + type(exc).__name__
         risky = [o for o in (a, b) if o["local"] and (o["damping"] > 0 or o["diis"])]
         if flavour in LOCAL_FLAVOURS and risky:
-            if passes(measure, {"a": dict(a, local=False), "b": dict(b, local=False)}):
+            if passes(measure, {"a": dict(a, local=False), "b": dict(b, local=False)}, clause):
                 if any(o["diis"] for o in risky) and (
-                        all(o["damping"] == 0 for o in risky) or passes(measure, {"a": dict(a, diis=False), "b": dict(b, diis=False)})):
+                        all(o["damping"] == 0 for o in risky) or passes(measure, {"a": dict(a, diis=False), "b": dict(b, diis=False)}, clause)):
                     raise Violation("diis-local-stuck", flavour=flavour, clause=clause) from None
                 raise Violation("damped-local-stuck", flavour=flavour, clause=clause) from None
         if flavour in ("d1", "hd1", "hv1", "l1") and net["kind"] == "signed" and any(o["damping"] == 0.5 for o in (a, b)):
-            if passes(measure, {"a": dict(a, damping=min(a["damping"], 0.45)), "b": dict(b, damping=min(b["damping"], 0.45))}):
+            if passes(measure, {"a": dict(a, damping=min(a["damping"], 0.45)), "b": dict(b, damping=min(b["damping"], 0.45))}, clause):
                 raise Violation("damped-half-cancel", flavour=flavour, clause=clause) from None
         raise
     differ = [k for k in ("damping", "update", "local", "diis", "init", "normalize", "distance") if a[k] != b[k]]
@@ -1223,45 +1227,45 @@ def run_sample(case):
 
 
 SUBCHECKS = [
-    SubCheck("d1bp.contract", run_contract1("d1"), s_contract1("d1"), examples=(120, 3000), shards=(1, 4),
+    SubCheck("d1bp.contract", run_contract1("d1"), s_contract1("d1"), examples=(300, 3000), shards=(1, 4),
              rule="contract_d1bp on trees/forests (rank-0 components incl.) x all options vs einsum; nt as RULE"),
-    SubCheck("hd1bp.contract", run_contract1("hd1"), s_contract1("hd1"), examples=(120, 3000), shards=(1, 4),
+    SubCheck("hd1bp.contract", run_contract1("hd1"), s_contract1("hd1"), examples=(300, 3000), shards=(1, 4),
              rule="contract_hd1bp incl. hyper-edges of degree 3-4 vs einsum; nt as RULE"),
-    SubCheck("hv1bp.contract", run_contract1("hv1"), s_contract1("hv1"), examples=(120, 3000), shards=(1, 4),
+    SubCheck("hv1bp.contract", run_contract1("hv1"), s_contract1("hv1"), examples=(300, 3000), shards=(1, 4),
              rule="contract_hv1bp (uniform dimension, parallel only) incl. hyper-edges vs einsum; nt as RULE"),
-    SubCheck("l1bp.contract", run_contract1("l1"), s_contract1("l1"), examples=(60, 1500), shards=(1, 4),
+    SubCheck("l1bp.contract", run_contract1("l1"), s_contract1("l1"), examples=(150, 1500), shards=(1, 4),
              rule="contract_l1bp with explicit site_tags, regions = connected sub-trees, vs einsum; nt as RULE"),
-    SubCheck("d2bp.contract", run_contract2("d2"), s_contract2("d2"), examples=(100, 2500), shards=(1, 4),
+    SubCheck("d2bp.contract", run_contract2("d2"), s_contract2("d2"), examples=(250, 2500), shards=(1, 4),
              rule="contract_d2bp vs sum |psi|^2 of the dense vector (dangling labels on some / all tensors); nt as RULE"),
-    SubCheck("l2bp.contract", run_contract2("l2"), s_contract2("l2"), examples=(50, 1200), shards=(1, 4),
+    SubCheck("l2bp.contract", run_contract2("l2"), s_contract2("l2"), examples=(150, 1200), shards=(1, 4),
              rule="contract_l2bp with explicit site_tags (connected regions) vs sum |psi|^2; nt as RULE"),
-    SubCheck("marginals.one_norm", run_marg1, s_marg1, examples=(120, 3000), shards=(1, 4),
+    SubCheck("marginals.one_norm", run_marg1, s_marg1, examples=(300, 3000), shards=(1, 4),
              rule="index marginals (all labels, incl. hyper) and tensor marginals read from HD1BP / HV1BP / D1BP messages vs "
                   "normalised einsum marginals; nt as RULE"),
-    SubCheck("marginals.two_norm", run_marg2, s_marg2, examples=(80, 2000), shards=(1, 4),
+    SubCheck("marginals.two_norm", run_marg2, s_marg2, examples=(100, 1000), shards=(2, 8),
              rule="D2BP.compute_marginal for every dangling label, D2BP.partial_trace of one site and one bonded pair, "
                   "L2BP.partial_trace of every site vs reduced density matrices of the dense vector; nt as RULE"),
-    SubCheck("schedule.independence", run_schedule, s_schedule, examples=(100, 2500), shards=(1, 4),
+    SubCheck("schedule.independence", run_schedule, s_schedule, examples=(200, 2500), shards=(1, 4),
              rule="two drawn option sets on the same network (6 flavours, class API): values agree to 1e-6 and messages agree "
                   "up to scale; nt: >=4 tensors and the sets differ in damping/update/local/diis/init"),
-    SubCheck("gauge.d2bp", run_gauge, s_gauge, examples=(100, 2500), shards=(1, 4),
+    SubCheck("gauge.d2bp", run_gauge, s_gauge, examples=(120, 1200), shards=(2, 8),
              rule="8 spellings of BP gauging / compression with max_bond=None, cutoff=0 on networks with a dangling label on "
                   "every tensor: einsum denotation unchanged, receiver untouched unless inplace; nt as RULE"),
-    SubCheck("compress.l2bp", run_compress_l2, s_compress_l2, examples=(50, 1200), shards=(1, 4),
+    SubCheck("compress.l2bp", run_compress_l2, s_compress_l2, examples=(120, 1200), shards=(1, 4),
              rule="compress_l2bp / L2BP.compress (lazy and eager, grouped regions) without truncation: denotation unchanged, "
                   "eager result has one tensor per region; nt as RULE"),
-    SubCheck("tree.expansions", run_expansions, s_expansions, examples=(100, 2500), shards=(1, 4),
+    SubCheck("tree.expansions", run_expansions, s_expansions, examples=(300, 3000), shards=(1, 4),
              rule="after convergence: normalize_message_pairs / normalize_tensors / normalize_messages then contract(), "
                   "contract_gloop_expand, contract_loop_series_expansion, contract_with_loops of D1BP/HD1BP/L1BP/D2BP/L2BP on a tree "
                   "(no loops) == exact value incl. the network exponent; nt: >=4 tensors"),
-    SubCheck("sample.omega", run_sample, s_sample, examples=(60, 1500), shards=(1, 4),
+    SubCheck("sample.omega", run_sample, s_sample, examples=(150, 1500), shards=(1, 4),
              rule="sample_hd1bp / sample_hv1bp (positive data, hyper-edges, optional label subset) and sample_d2bp (dangling size 2) "
                   "with explicit seed: returned omega == exact probability of the returned configuration, returned network == the "
                   "selected slice; nt: >=3 tensors"),
-    SubCheck("regions.counting", run_regions, s_regions, examples=(300, 6000), shards=(1, 4),
+    SubCheck("regions.counting", run_regions, s_regions, examples=(1000, 8000), shards=(1, 4),
              rule="RegionGraph / gen_region_counts with autocomplete on random region sets: counting numbers of the regions "
                   "containing any node sum to 1; nt: >=3 distinct generating regions"),
-    SubCheck("combine_local", run_combine, s_combine, examples=(300, 6000), shards=(1, 4),
+    SubCheck("combine_local", run_combine, s_combine, examples=(800, 8000), shards=(1, 4),
              rule="combine_local_contractions vs log-space product/quotient formula incl. signs, phases, zeros, 1e+-150 factors, "
                   "initial mantissa/exponent, power, strip_exponent; nt: >=2 factors with a sign/phase or a negative power"),
 ]
